@@ -162,7 +162,7 @@ class UnmanagedRoles:
             for n in t.callee_names():
                 if n.startswith('std::sync::atomic::Atomic'):
                     if any(s[0] == 'field' and s[1] == '%s.%s' % (self.INNER, field) for s in sources(an, t.args[0])) or \
-                            any(s[0] == 'field' and s[1].endswith('.0') and self.GETGUARD and s[1].startswith(self.GETGUARD) for s in sources(an, t.args[0])) and field == self.AVAIL:
+                            any(s[0] == 'field' and self.GETGUARD and s[1].startswith(self.GETGUARD + '.') for s in sources(an, t.args[0])) and field == self.AVAIL:
                         out.append((blk, n.split('::')[-1], an.resolve_operand(t.args[1]) if len(t.args) > 1 else ''))
                     break
         return out
